@@ -467,7 +467,7 @@ def run(chk, replay=None):
         for b in bad:
             hit = None
             for k in known.values():
-                if re.search(k["match"], b):
+                if re.search(k["match"], f"[{rep.get('name') or 'generated'}] {b}"):
                     hit = k["id"]
             if hit:
                 chk.known_hit(hit, dict(rep, problem=b))
@@ -537,6 +537,16 @@ def run(chk, replay=None):
                         rc, out = sh(f"cd {d} && ./out", timeout=30)
                         if rc or out.strip() != "b 7 1":
                             chk.violation(f"the C-library program {name} does not run correctly (exit {rc}, output {out.strip()[:80]!r})", rep)
+        # corpus: a SECTIONS script that puts .text inside the page the headers occupy (earlier finding)
+        if not replay or json.load(open(replay))["replay"].get("name") == "script-text-inside-headers":
+            open(d + "/c.s", "w").write(".text\n.globl _start\n_start: ret\n.data\n.quad 1\n")
+            open(d + "/c.ld", "w").write("SECTIONS { .text 0x400123 : { *(.text .text.*) } }\n")
+            rc, out = sh(f"cd {d} && as --64 c.s -o c.o && rm -f out trace && WILD_VERIF_LAYOUT={d}/trace timeout 60 {wild} c.o -T c.ld -o out", timeout=90)
+            stats["links"] += 1
+            if rc == 0:
+                examine(d + "/out", "static", 0x1000, {"name": "script-text-inside-headers", "seeds": [], "opts": ["-T", "SECTIONS { .text 0x400123 : { *(.text .text.*) } }"]}, True)
+            else:
+                stats["rejected"] += 1
         # a shared library for the dynamic kinds
         open(d + "/ext.s", "w").write(".globl extfn\n.type extfn,@function\nextfn: ret\n.data\n.globl extvar\n.type extvar,@object\n.size extvar,8\nextvar: .quad 1\n")
         rc, out = sh(f"cd {d} && as --64 ext.s -o ext.o && {wild} -shared ext.o -o libext.so", timeout=60)
